@@ -56,6 +56,10 @@ def object_patterns(O):
             pats.append((f"{taken}_at_{u}", {v: (taken if v == u else "") for v in ints}))
     if len(ints) >= 2:
         pats.append(("O1_O0_swapped", {v: ("O1" if v == ints[0] else "O0" if v == ints[1] else "") for v in ints}))
+    if len(ints) >= 3:
+        # consecutive auto-label-like names taken, one ancestor left to be numbered past both
+        pats.append(("O0_O1_taken", {v: ("O0" if v == ints[-1] else "O1" if v == ints[-2] else "") for v in ints}))
+        pats.append(("O0_O2_taken", {v: ("O0" if v == ints[1] else "O2" if v == ints[2] else "") for v in ints}))
     return pats
 
 
@@ -78,6 +82,10 @@ def species_patterns(S):
         pats.append(("S0_leaf", _merge(alt, {v: "" for v in ints})))
         if len(ints) >= 2:
             pats.append(("S1_root_rest_unnamed", _merge(base, {v: ("S1" if v == ints[0] else "") for v in ints})))
+            pats.append(("S0_leaf_S1_inner", _merge(alt, {v: ("S1" if v == ints[-1] else "") for v in ints})))
+        # consecutive auto-label-like names on the leaves, every ancestor unnamed
+        pats.append(("S_leaves_taken", _merge({v: f"S{i}" for i, v in enumerate(S.leaves)}, {v: "" for v in ints})))
+        pats.append(("S_leaves_taken_gap", _merge({v: f"S{2 * i}" for i, v in enumerate(S.leaves)}, {v: "" for v in ints})))
     return pats
 
 
@@ -207,11 +215,14 @@ def check_missing_syntenies(O, S, leafmap, opat, spat, algo):
 # ------------------------------------------------------------------ exploration
 def plan(tier, seed):
     out = []
-    pairs = spaces.shape_pairs(3, 2) if tier == "quick" else spaces.shape_pairs(3, 3) + spaces.shape_pairs(4, 2, min_obj=4)
+    # quick: <=3 x <=2 leaves plus the 4-leaf objects on a single species (three ancestors are needed for the naming
+    # patterns in which two consecutive auto-label-like names are taken)
+    pairs = (spaces.shape_pairs(3, 2) + spaces.shape_pairs(4, 1, min_obj=4) if tier == "quick"
+             else spaces.shape_pairs(3, 3) + spaces.shape_pairs(4, 2, min_obj=4))
     for osh, ssh in pairs:
         n = spaces.count_assignments(osh, ssh)
         for i in range(n):
-            out.append({"slice": f"cli:{'P3x2' if tier == 'quick' else 'P3x3+P4x2'}", "osh": osh, "ssh": ssh, "asg": i, "full": tier != "quick"})
+            out.append({"slice": f"cli:{'P3x2+P4x1' if tier == 'quick' else 'P3x3+P4x2'}", "osh": osh, "ssh": ssh, "asg": i, "full": tier != "quick"})
     return out
 
 
